@@ -158,3 +158,11 @@ func DecodeFloatDesc(b []byte) ([]byte, float64, error) {
 	b, u, err := DecodeUintDesc(b)
 	return b, decodeCmpUintToFloat(u), err
 }
+
+// isAddInt64Overflow tells whether n+delta does not fit in an int64.
+func isAddInt64Overflow(n int64, delta int64) bool {
+	if delta > 0 {
+		return n > math.MaxInt64-delta
+	}
+	return delta < 0 && n < math.MinInt64-delta
+}
